@@ -2463,7 +2463,7 @@ class Model:
 
                 source_popsize = par.source_popsize(ti)
                 if source_popsize:
-                    converted_frac = converted_amt / source_popsize
+                    converted_frac = min(converted_amt / source_popsize, 1e100)  # Cap the fraction so it cannot overflow to inf (which results in NaN flows) if the source compartments only contain floating point dust
                 else:
                     converted_frac = 0.0
 
